@@ -213,7 +213,8 @@ pub struct Sim {
     node_committed: Vec<BTreeMap<u64, (u64, u64)>>,
     last_commit_index: Vec<u64>,
     last_storage_commit: Vec<u64>,
-    leader_committed: BTreeMap<u64, (u64, u64, u64)>,
+    /// index -> (term, data, leader, nodes holding the same entry when it was committed, nodes holding any entry at that index then)
+    leader_committed: BTreeMap<u64, (u64, u64, u64, usize, usize)>,
     was_leader: Vec<bool>,
     pub violations: Vec<(String, String)>,
     pub states: BTreeSet<u64>,
@@ -484,7 +485,11 @@ impl Sim {
                             _ => {}
                         }
                         if probes[i].state == ProbeState::Leader {
-                            self.leader_committed.entry(l.index).or_insert((l.term, l.data, i as u64));
+                            if !self.leader_committed.contains_key(&l.index) {
+                                let same = self.nodes.iter().filter(|nd| nd.storage.logs.iter().any(|e| e.index == l.index && e.term == l.term && e.data == l.data)).count();
+                                let any = self.nodes.iter().filter(|nd| nd.storage.logs.iter().any(|e| e.index == l.index)).count();
+                                self.leader_committed.insert(l.index, (l.term, l.data, i as u64, same, any));
+                            }
                         }
                     }
                     Some(e) if *e != entry => {
@@ -524,15 +529,28 @@ impl Sim {
         for i in 0..self.n() {
             let is_leader = probes[i].state == ProbeState::Leader;
             if is_leader && !self.was_leader[i] {
-                for (idx, (t, d, who)) in &self.leader_committed {
+                let quorum = self.n() / 2 + 1;
+                for (idx, (t, d, who, same, any)) in &self.leader_committed {
                     let has = self.nodes[i].storage.logs.iter().any(|l| l.index == *idx && l.term == *t && l.data == *d);
                     if !has {
                         let there: Vec<(u64, u64)> = self.nodes[i].storage.logs.iter().filter(|l| l.index == *idx).map(|l| (l.term, l.data)).collect();
                         let kind = if there.is_empty() { "missing" } else { "different_entry" };
                         self.violations.push((
-                            format!("C29:new_leader_lacks_entry_committed_by_earlier_leader:{kind}"),
+                            // "two nodes can hold different entries at one index" is an open finding (KF-C28-1: no log-matching
+                            // check, replicas counted by index only) and this is its consequence for new leaders; the signature
+                            // carries a suffix when the run showed something the unchanged code never does
                             format!(
-                                "node {i} became leader in term {} but index {idx} (term {t}, data {d}, committed by leader {who}) is {there:?} in its log",
+                                "C29:new_leader_lacks_entry_committed_by_earlier_leader:{kind}{}",
+                                if self.votes_for_stale_logs > 0 {
+                                    ":after_a_vote_for_a_candidate_whose_log_was_behind_the_voters"
+                                } else if self.sub_quorum_commits > 0 {
+                                    ":after_a_leader_committed_with_fewer_than_a_quorum_of_replicas_on_its_record"
+                                } else {
+                                    ""
+                                }
+                            ),
+                            format!(
+                                "node {i} became leader in term {} but index {idx} (term {t}, data {d}, committed by leader {who} when {same} nodes held that entry and {any} nodes held an entry at that index; quorum {quorum}) is {there:?} in its log",
                                 probes[i].term
                             ),
                         ));
